@@ -619,7 +619,7 @@ func c06Replay(pl json.RawMessage) (string, []core.Violation) {
 func init() {
 	core.Register(&core.PropSpec{
 		ID: "C06", Level: "model_checking",
-		Rule:     "writer state machine driven by the program universe: ALL token sequences <= n (4 quick, 5 thorough) in space and LF layouts; the statement families in every layout with <= k deviations (k=1 quick, 2 thorough) over gaps {LF, none, comment, blank line, blank lines + comment, tab} and dropped semicolons (covers statements starting with ( [ - ++ backtick, brace-less if/else bodies, comments and blank lines in every gap); multi-line backtick and continued string literals alone, next to other statements and nested <= 2 deep in blocks/functions; every expression chain <= depth 2 as statement and initialiser. For every accepted program: (a) each formatted output re-parses and its compact form equals the compact output of the source (same tree incl. literal values and grouping), (b) formatting the formatted output again reproduces it byte for byte — on 7 option sets quick, all 21 thorough; (c) the outputs for all 10 indent units {tab, 0..8 spaces} are identical after stripping leading white space of lines that do not start inside a literal; (d) the with- and without-semicolon outputs are identical after deleting semicolons whose innermost open bracket is a brace or none, and the without-semicolon output has no more of them. states = distinct formatted outputs under the default options (each is one path through the writer's deferred-whitespace machine), transitions = formatted outputs produced and checked Added families: brace-less bodies ending in } or ) of their own (7 bodies x 8 compound positions x following statement); literal/comment interplay (items with quotes, //, escapes followed by value-relevant multi-line literals, top level and nested); the scale family. Plugin-built tokens (round 12): every family program in every layout with <= 1 deviation (4 gap kinds) again through builders whose token interceptor rebuilds identifier and keyword tokens with NewTokenAt after next().",
+		Rule:     "writer state machine driven by the program universe: ALL token sequences <= n (4 quick, 5 thorough) in space and LF layouts; the statement families in every layout with <= k deviations (k=1 quick, 2 thorough) over gaps {LF, none, comment, blank line, blank lines + comment, tab} and dropped semicolons (covers statements starting with ( [ - ++ backtick, brace-less if/else bodies, comments and blank lines in every gap); multi-line backtick and continued string literals alone, next to other statements and nested <= 2 deep in blocks/functions; every expression chain <= depth 2 as statement and initialiser. For every accepted program: (a) each formatted output re-parses and its compact form equals the compact output of the source (same tree incl. literal values and grouping), (b) formatting the formatted output again reproduces it byte for byte — on 7 option sets quick, all 21 thorough; (c) the outputs for all 10 indent units {tab, 0..8 spaces} are identical after stripping leading white space of lines that do not start inside a literal; (d) the with- and without-semicolon outputs are identical after deleting semicolons whose innermost open bracket is a brace or none, and the without-semicolon output has no more of them. states = distinct formatted outputs under the default options (each is one path through the writer's deferred-whitespace machine), transitions = formatted outputs produced and checked Added families: brace-less bodies ending in } or ) of their own (7 bodies x 8 compound positions x following statement); literal/comment interplay (items with quotes, //, escapes followed by value-relevant multi-line literals, top level and nested); the scale family. Plugin-built tokens (round 12): every family program in every layout with <= 1 deviation (4 gap kinds) again through builders whose token interceptor rebuilds identifier and keyword tokens with NewTokenAt after next(). Added (round 14): the line-by-line literal family also as quoted strings with raw line breaks.",
 		Assume:   []string{"(d) uses the independent tokenizer R-tok to find statement-terminating semicolons", "trailing blanks at line ends are ignored when comparing the semicolon variants"},
 		QuickSec: 300, ThorSec: 2400, Run: c06Run, Replay: c06Replay,
 		Evals: "inputs", Nontriv: "accepted_multiline_layouts", States: "distinct_formatted_outputs", Trans: "formatted_outputs_checked",
